@@ -144,6 +144,16 @@ CHECKS = {
         "switch-scope trace oracle (family and apply mode recomputed per invocation from the chain of enclosing invocations), not stated as a trace-automaton theorem. change_control and the control<> rule are not in the Lean model (one control per run): "
         "they are covered by an oracle-only part with a second, event-marking control family. The two spellings change_state / change_states are one constructor in the model (same behaviour); success() of the state types does not throw.",
    technique="Lean 4 proof that every model trace is accepted by a state-scope stack automaton (environment-indexed trace induction) + exact life-cycle theorems; differential correspondence with state rules and all switching bases; three independent trace oracles; oracle-only change_control part"),
+ 'C12': dict(engine='matcher-model', design_ref='DESIGN.md §6 C12',
+   text=("Proof (Lean 4): the node builder of contrib/parse_tree.hpp (make_control::state_handler: push on start, pop + transform + attach on success, pop on failure / unwind, splice for unselected rules, no bookkeeping at all for "
+         "leaf-optimised rules) is modelled as a stack machine over the enter/exit events; for every trace of the matcher model — any grammar, actions (vetoing, throwing), selector, input — the trace is the event list of one "
+         "invocation tree (run_tree) and the machine returns exactly the declarative surviving derivation of that tree (C12_tree via run_specT): nodes = successful invocations of selected rules all of whose enclosing invocations "
+         "succeeded (inside a succeeding at<> included), in order and nesting, begin/end = cursor at entry/return; nothing from a failed or exception-aborted invocation (C12_failed_contributes_nothing); unselected rules contracted "
+         "(C12_unselected_contracted); tree iff the parse succeeds (C12_iff); store / remove_content / fold_one / discard_empty exactly as documented (C12_remove_content, C12_fold_one_*, C12_discard_empty_*)."),
+   note=GENERAL_NOTE + " Partial: the soundness of the compile-time leaf optimisation (no selected rule is ever invoked below a rule with is_leaf< 8 >) is a hypothesis of C12_tree (leafOKT), discharged for the no-optimisation classification (C12_no_optimisation) "
+        "and evaluated on the model trace of every explored run (evidence: leaf_optimisation_side_condition), not yet derived from the static classification. Positional containment of children holds only outside look-ahead / rematch and is checked by the oracle "
+        "as tree containment, not proved. parse_tree_to_dot is not modelled. state<> rules cannot be combined with parse_tree::parse (the tree state is dropped from the pack; does not compile) and are excluded.",
+   technique="Lean 4 proof that a stack-machine model of the parse_tree node builder computes the declarative surviving derivation on every model trace (mutual induction over invocation trees); differential real parse_tree::parse vs model (trace and tree); independent Python recomputation of the derivation from the implementation's enter/exit log"),
 }
 
 PENDING = {
@@ -172,7 +182,7 @@ def main():
              'serves_properties': [k for k, v in CHECKS.items() if v['engine'].startswith('leaf')],
              'kind_free_text': "Lean 4 models of leaf functions with theorems; line-protocol differential drivers"}],
         'checks': [], 'not_applicable': [],
-        'notes': "Every check: ./check <id> --tier quick|thorough. Property ids under not_applicable with reason 'check under construction' are not claimed yet; none is considered genuinely not applicable (DESIGN.md §9).",
+        'notes': "Every check: ./check <id> --tier quick|thorough. All 20 properties are claimed; none is considered not applicable (DESIGN.md §9).",
     }
     for pid in sorted(CHECKS):
         c = CHECKS[pid]
